@@ -113,6 +113,16 @@ Theorem C07_slave_port_owner_unique : forall m n r,
 Proof. exact owner_unique. Qed.
 Print Assumptions C07_slave_port_owner_unique.
 
+(* ... and owns nothing else: adding, editing (disabling) or removing a slave leaves every local port, virtual port definition
+   and port record as it was, also when a local port's id starts with the slave's name and a dot *)
+Theorem C07_slave_ops_keep_local_ports : forall h o,
+  match o with OAddSlave _ | OEditSlave _ | ORemoveSlave _ => True | _ => False end ->
+  let h' := step h o in
+  h_live h' = h_live h /\ h_vports h' = h_vports h /\ st_ports h' = st_ports h /\ st_vports h' = st_vports h
+  /\ h_live (restart h') = h_live (restart h).
+Proof. exact slave_ops_keep_local_ports. Qed.
+Print Assumptions C07_slave_ops_keep_local_ports.
+
 (* the premise of wf_port about texts, for the real grammar: what the hub reports for an accepted text parses back to itself *)
 Theorem C07_canonical_texts_are_fixpoints : forall s t, canon_run s = Some t -> canon_run t = Some t.
 Proof. exact canon_run_stable. Qed.
@@ -130,7 +140,9 @@ Example C07_nonvacuous :
   /\ view (fst (load_from_data canon_run eval_tw_run (fresh ex_port) (prepare_for_save ex_port))) = view ex_port
   /\ h_live (restart (run ["h1"] [OAddVirtualPort "v1"; OAddVirtualPort "v2"; OSetAttr "v1"; ORemovePort "v2"; OWriteValue "v1"; OSaveAll]))
      = ["h1"; "v1"]
-  /\ load_ports "s1" ["s1.p1"; "s1.floor1.lamp"; "s10.p1"; "s2.s1.p1"] = ["p1"; "floor1.lamp"].
+  /\ load_ports "s1" ["s1.p1"; "s1.floor1.lamp"; "s10.p1"; "s2.s1.p1"] = ["p1"; "floor1.lamp"]
+  /\ h_live (restart (run ["h1"] [OAddSlave "garage"; OAddVirtualPort "garage.door_override"; OEditSlave "garage"; ORemoveSlave "garage"]))
+     = ["h1"; "garage.door_override"].
 Proof. vm_compute. repeat split. Qed.
 
 Example C07_wf_nonvacuous : wf_port canon_run ex_port.
